@@ -89,6 +89,9 @@ class Relay(W.NetPolicy):
         # (since the counters were reset) is forwarded, also re-deliver the (n-back)-th one
         self.redeliver = kw.get("redeliver", {})
         self.qhist = []
+        # late copies of downstream answers: [{"dseq": s, "delays_us": [...]}]: every NULL / PRIVATE answer that carries
+        # data of downstream packet s is delivered again after each of the delays
+        self.dup_down = kw.get("dup_down", [])
 
     # -- transformations
     def _case(self, mode, b):
@@ -239,6 +242,15 @@ class Relay(W.NetPolicy):
                 res.append((self.latency + delay, nd, src2, odst,
                             {"redeliver_of": oserial, "newid": bool(newid), "flip": bool(flip),
                              "otherport": bool(otherport), "back": back}))
+        if from_server and self.dup_down and dg.data[:3] != proto.RAW_HDR:
+            m = D.parse(dg.data)
+            if m.qr and m.an and not m.errors and m.an[0].type in (D.T_NULL, D.T_PRIVATE) and len(m.an[0].rdata) > 2:
+                ds = (m.an[0].rdata[1] >> 5) & 7
+                for dd in self.dup_down:
+                    if dd["dseq"] == ds:
+                        for delay in dd["delays_us"]:
+                            for data, src, dst in outs:
+                                res.append((self.latency + delay, data, src, dst, {"late_copy": ds}))
         for data, src, dst in outs:
             if f == "id0" and to_server and len(data) > 2 and data[:3] != proto.RAW_HDR:
                 # a relay that happens to pick DNS id 0 for the forwarded query ("no query" for the server)
@@ -308,8 +320,43 @@ def make_packet(src, dst, kind, n, rng, ident):
         which, seedv = kind.split(":")
         body = struct.pack(">I", 0x7717) + twin_payload(int(seedv), max(80, n - 4), which == "twinB")
         return proto.tun_frame(proto.ipv4_packet(src, dst, body))
+    if kind.startswith("embed:"):
+        return embed_packet(src, dst, kind, n, rng, ident)
     body = struct.pack(">I", ident) + payload_bytes(kind, max(0, n - 4), rng)
     return proto.tun_frame(proto.ipv4_packet(src, dst, body))
+
+
+FABRICATED_MARK = b"FABRICATED-BY-MISASSEMBLY"
+
+
+def embed_packet(src, dst, kind, n, rng, ident):
+    """kind = "embed:<F>": an incompressible packet (zlib stores it verbatim) whose compressed image carries, exactly at
+    the fragment boundary F, a complete zlib stream of a small IP frame that nobody ever offered.  A receiver
+    that starts reassembling in the middle of this packet (fragment 1 taken for a packet start) hands that stream
+    to uncompress() - which succeeds - and would write the fabricated frame to its tun device."""
+    import zlib
+    F = int(kind.split(":")[1])
+    r = random.Random(ident * 31 + F)
+    # two different streams (a repeated one would be found by deflate and the packet no longer stored verbatim)
+    embs = [zlib.compress(proto.tun_frame(proto.ipv4_packet(dst, src, FABRICATED_MARK + bytes(r.randrange(1, 255) for _ in range(6)))), 9)
+            for _ in (1, 2)]
+    emb = embs[0]
+    head = 7 + 4 + 20 + 4           # zlib header + stored-block header, tun header, IP header, ident
+    body = bytearray(struct.pack(">I", ident))
+    for k in (1,):
+        want = k * F - head + 4      # offset inside body where the stream must start (body starts at image offset head-4)
+        while len(body) < want:
+            body.append(r.randrange(1, 255))
+        if len(body) == want:
+            body += embs[k - 1]
+    while len(body) < max(n, 2 * F + len(emb) + 40):
+        body.append(r.randrange(1, 255))
+    frame = proto.tun_frame(proto.ipv4_packet(src, dst, bytes(body)))
+    img = zlib.compress(frame, 9)
+    if img[7:7 + len(frame)] != frame or img.find(emb) != F:
+        # not stored verbatim / header sizes differ from the assumption: fall back to a plain packet
+        return proto.tun_frame(proto.ipv4_packet(src, dst, struct.pack(">I", ident) + payload_bytes("rand", n, rng)))
+    return frame
 
 
 # ------------------------------------------------------------------ sessions
@@ -320,7 +367,7 @@ class Session:
     def __init__(self, bdir, seed=1, relay=None, nclients=1, qtype="NULL", downenc=None, lazy=1,
                  maxlen=None, fragsize=None, raw=False, interval=None, server_args=(), netbits=24,
                  password=PASSWORD, domain=DOMAIN, tag="s", client_pw=None, dump_users=False,
-                 server_domain=None):
+                 server_domain=None, occupy=0):
         self.relay = relay or Relay(seed)
         self.w = W.World(bdir, seed=seed, policy=self.relay, tag=tag)
         self.w.dump_users = dump_users
@@ -329,6 +376,15 @@ class Session:
         sargs = ["-f", "-4", "-P", password] + list(server_args) + \
             ["%s/%d" % (self.server_ip, netbits), server_domain or domain]
         self.w.spawn("S", "S", sargs)
+        # other peers that only opened a session (version request) before our clients start: the clients then get the
+        # higher slots (userid 10..15 is a LETTER in every data query name)
+        for k in range(occupy):
+            labels = proto.qname(proto.q_version(4000 + k), domain)
+            self.w.run_until(t=self.w.now + 2000)
+            self.w._arrive(0, D.build_query(7000 + k, labels, D.T_NULL, edns=False), ("10.9.3.%d" % (k + 1), 5353),
+                           (W.SERVER_IP, 53))
+        if occupy:
+            self.w.run_until(t=self.w.now + 5000)
         self.clients = []
         self.cfg = dict(qtype=qtype, downenc=downenc, lazy=lazy, maxlen=maxlen, fragsize=fragsize,
                         raw=raw, interval=interval)
